@@ -377,6 +377,8 @@ class Tally(StatisticsInterface):
             raise TypeError("tally registered value must be a number")
         if math.isnan(value):
             raise ValueError("tally registered value cannot be nan")
+        # a Quantity (e.g., a Duration) counts with its si-value, as in notify
+        value = float(value)
         if self._n == 0:
             self._min = +math.inf
             self._max = -math.inf
@@ -923,6 +925,8 @@ class WeightedTally(StatisticsInterface):
             raise ValueError("tally weight cannot be nan")
         if weight < 0:
             raise ValueError("tally weight cannot be < 0")
+        # a Quantity (e.g., a Duration) counts with its si-value, as in notify
+        value = float(value)
         if self._n == 0:
             self._min = +math.inf
             self._max = -math.inf
@@ -1384,6 +1388,8 @@ class TimestampWeightedTally(WeightedTally):
             raise ValueError("tally registered value cannot be nan")
         if math.isnan(timestamp):
             raise ValueError("tally timestamp cannot be nan")
+        # a Quantity (e.g., a Duration) counts with its si-value, as in notify
+        value = float(value)
         if timestamp < self._last_timestamp:
             raise ValueError("tally timestamp before last timestamp")
         # only calculate when the time interval is larger than 0, 
